@@ -72,7 +72,7 @@ struct Outcome {
   bool have_counters = false;
   unsigned kinds_of_events = 0;
   uint64_t faults_delivered = 0, fault_points = 0, length_errors = 0;
-  uint64_t growth[4] = {}, shrinks[4] = {}, splits = 0, scans = 0, scan_visits = 0, views_checked = 0;
+  uint64_t growth[4] = {}, shrinks[4] = {}, splits = 0, scans = 0, scan_visits = 0, views_checked = 0, aliased_bounds = 0;
   bool reached_nonrep = false;
 };
 
@@ -206,11 +206,19 @@ struct Runner {
     };
     // bound buffers: two exact-size heap blocks; for bounds of equal length the case chooses their address order
     std::unique_ptr<char[]> b1(new char[std::max<size_t>(o.key.size(), 1)]), b2(new char[std::max<size_t>(o.key2.size(), 1)]);
-    if (o.key.size() == o.key2.size() && ((b1.get() < b2.get()) != (o.c == 0))) b1.swap(b2);  // o.c == 0: from-buffer below to-buffer
+    if (o.key.size() == o.key2.size() && ((b1.get() < b2.get()) != ((o.c & 1) == 0))) b1.swap(b2);  // bit 0 clear: from-buffer below to-buffer
     std::memcpy(b1.get(), o.key.data(), o.key.size());
     std::memcpy(b2.get(), o.key2.data(), o.key2.size());
-    const Key from = KeyConv<Key>::make(b1.get(), o.key.size());
-    const Key to = KeyConv<Key>::make(b2.get(), o.key2.size());
+    const char* fp = b1.get();
+    const char* tp = b2.get();
+    if ((o.c & 2) != 0) {  // both bounds are views into the one buffer that holds the longer of them
+      const bool from_longer = o.key.size() >= o.key2.size();
+      const std::string& lng = from_longer ? o.key : o.key2;
+      const std::string& sht = from_longer ? o.key2 : o.key;
+      if (lng.compare(0, sht.size(), sht) == 0) { fp = tp = from_longer ? b1.get() : b2.get(); out.aliased_bounds++; }
+    }
+    const Key from = KeyConv<Key>::make(fp, o.key.size());
+    const Key to = KeyConv<Key>::make(tp, o.key2.size());
     if (o.kind == S_SCAN) db->scan(fn, o.a != 0);
     else if (o.kind == S_SCAN_FROM) db->scan_from(from, fn, o.a != 0);
     else db->scan_range(from, to, fn);
